@@ -17,6 +17,7 @@ PovmSet(n) ==
     CASE n = "P3" -> <<QPovm("x"), QPovm("y"), QPovm("z")>>
       [] n = "Pmix" -> <<QPovm("z"), QPovm("p3"), QPovm("p4")>>                           \* mixed outcome counts
       [] n = "P2" -> <<QPovm("x"), QPovm("z")>>                                          \* not complete
+      [] n = "Pdy" -> <<QPovm("x"), QPovm("p4"), QPovm("z")>>                            \* mixed outcome counts 2, 4, 2; dyadic entries
       [] n = "Pu" -> <<QPovm("u2"), QPovm("p4"), QPovm("x")>>
       \* uniform outcome counts 3 and 4: rotated copies (Heisenberg picture) of the catalogue POVMs
       [] n = "P33" -> <<QPovm("p3"), [k \in 1..3 |-> HeisenbergH(QPovm("p3")[k], QGate("h"), PauliNu)],
